@@ -104,6 +104,7 @@ C01_RecvOnce(k) == (ln(k).ev = "Recv" /\ ln(k).res = "ok") =>
                       (TripleOf(k) \notin receipts[ActChain(k)] /\ TripleOf(k) \in receipts'[ActChain(k)])
 C01_DupRejected(k) == (ln(k).ev = "Recv" /\ TripleOf(k) \in receipts[ActChain(k)]) => ln(k).res = "err"
 C01_RejectNoChange(k) == (ln(k).ev = "Recv" /\ ln(k).res # "ok") => Unchanged(k)
+C01_ReceiptStable(k) == \A c \in Chains : receipts[c] \subseteq receipts'[c]
 C01_EffectsOnlyByRecv(k) == \A c \in Chains :
      /\ marks'[c] # marks[c] => (ln(k).ev = "Recv" /\ ln(k).res = "ok" /\ ActChain(k) = c /\ marks'[c] = marks[c] + 1)
      /\ (bind'[c] # bind[c] \/ wbal'[c] # wbal[c]) => (ActChain(k) = c /\ ln(k).res = "ok" /\ ln(k).ev \in {"Recv", "Send", "Ack"})
@@ -175,6 +176,7 @@ Judge(k) ==
      /\ Report(k, "C01.DupRejected", C01_DupRejected(k))
      /\ Report(k, "C01.RejectNoChange", C01_RejectNoChange(k))
      /\ Report(k, "C01.EffectsOnlyByRecv", C01_EffectsOnlyByRecv(k))
+     /\ Report(k, "C01.ReceiptStable", C01_ReceiptStable(k))
      /\ Report(k, "C02.AuthRecv", C02_AuthRecv(k))
      /\ Report(k, "C02.AuthAck", C02_AuthAck(k))
      /\ Report(k, "C02.RejectNoChange", C02_RejectNoChange(k))
